@@ -49,6 +49,7 @@ fn main() {
             let code = match prop {
                 "C01" => c01::check(&tier, seed),
                 "C15" => c15::check(&tier, seed),
+                "C19" => c19::check(&tier, seed, std::env::var("VERIF_ONLY").ok().as_deref()),
                 "C20" => c20::check(&tier, seed, std::env::var("VERIF_ONLY").ok().as_deref()),
                 _ => usage(),
             };
@@ -61,6 +62,7 @@ fn main() {
             let code = match v["property"].as_str().unwrap_or("") {
                 "C01" => c01::replay(&v),
                 "C15" => c15::replay(&v),
+                "C19" => c19::replay(&v),
                 "C20" => c20::replay(&v),
                 other => report::harness_error(&format!("unknown property in replay file: {other}")),
             };
